@@ -97,6 +97,8 @@ def work(prop, master, idxs, tier, faults):
     default arguments, class attributes inside PyFVTool): what a run sees then
     depends on the earlier runs *of its chunk* only, which are recorded with a
     violation, and not on which chunks this pool worker happened to execute before."""
+    if not faulthandler.is_enabled():
+        faulthandler.enable()       # a crash inside a C extension leaves a Python traceback
     A.reset()
     return _work_chunk(prop, master, idxs, tier, faults)
 
@@ -163,10 +165,12 @@ def run_batch(prop, tier, master, n_ff, n_f, workers, deadline, strata=()):
              "runs_ff": 0, "runs_f": 0, "runs_strat": 0, "skipped_jobs": 0, "notes": [],
              "strat": Counter()}
     pending = list(jobs)
-    for attempt in (1, 2):
-        # a worker that dies (watchdog, kernel OOM) breaks the whole pool: the jobs
-        # that did not complete are retried once in a fresh pool; a second failure
-        # is a harness error
+    for attempt in (1, 2, 3):
+        # a worker that dies (watchdog, kernel OOM, a crash inside a C extension - scipy's
+        # SuperLU has been seen to segfault, rarely and not reproducibly, on matrices the
+        # scribbler had made singular) breaks the whole pool: the jobs that did not
+        # complete are retried in a fresh pool, twice at most; a third failure is a
+        # harness error
         failed = []
         with ProcessPoolExecutor(max_workers=workers, mp_context=ctx) as ex:
             futs = {ex.submit(work, prop, master, idxs, tier, faults): (faults, idxs)
@@ -209,8 +213,9 @@ def run_batch(prop, tier, master, n_ff, n_f, workers, deadline, strata=()):
                 return total
         if not failed:
             break
-        if attempt == 1:
-            print("note: %d job(s) lost to a dead worker, retrying once" % len(failed), flush=True)
+        if attempt < 3:
+            print("note: %d job(s) lost to a dead worker, retrying (attempt %d)"
+                  % (len(failed), attempt + 1), flush=True)
             total["skipped_jobs"] += len(failed)
             pending = [j for j, _ in failed]
         else:
